@@ -186,7 +186,9 @@ def lex(
         A :class:`TokenIterator` object
     """
     if isinstance(lines, str):
-        lines = lines.splitlines()
+        # only LF, CRLF and CR end a line (as for files); str.splitlines()
+        # would also split on VT, FF, U+001C-1E, U+0085, U+2028 and U+2029
+        lines = re.split(r'\r\n|\r|\n', lines)
     if pattern is not None:
         if isinstance(pattern, str):
             regex = re.compile(pattern, flags=re.VERBOSE)
